@@ -443,6 +443,8 @@ pub fn run(ctx: &Ctx, rep: &mut Report, id: &str) {
                 ("repeat behind a short contig", vec![g2.clone(), short.clone(), [&g1[..k + 3], &g1[..k + 1]].concat()]),
                 ("repeat on the opposite strand in another contig", vec![g1.clone(), short.clone(), [g2.as_slice(), &rc_str(&g1[2..k + 4])].concat()]),
                 ("overlapping repeat", vec![[&g1[..k + 2], &g1[1..k + 3], &g1[k..]].concat()]),
+                ("three copies, two of them at the start of later contigs", vec![[&g1[..k + 2], &g2[..4]].concat(), [&g1[..k + 2], &g2[4..8]].concat(), g1[..k + 2].to_vec()]),
+                ("adjacent repeats whose ranges touch", vec![[&g1[..k], &g2[..k], &g1[..k], &g2[..k]].concat()]),
                 ("N runs", vec![{
                     let mut t = g1.clone();
                     t[k] = b'N';
